@@ -35,6 +35,31 @@ CHECKS = {
    text='From 6 base states, all histories of <=4 (quick) / <=5 (thorough) operations over a 24-operation alphabet (loader lifecycle, verify/lookups, directory/single-path updates incl. ones that fail part-way through invalid path, symlink loop or injected OSError, five save variants, CLI commands, tree edits) are executed; on every transition: no data file changes, no write-type audit event and no Manifest change outside a save, and across saves DIST/IGNORE/TIMESTAMP lines, entry tags and out-of-scope entries are preserved per logical Manifest.',
    note='Trusted: sys.addaudithook write events + lstat/byte snapshots; reference parser for Manifest comparison. A loader is discarded when another actor (CLI update) rewrites Manifests (single-actor property).',
    ref='DESIGN.md §3 C10'),
+ 'C08': dict(level='exploration',
+   technique='exhaustive enumeration (all 1,114,112 code points x 3 contexts, all short strings over a hostile alphabet, entry-list products, all gemato-accepted C09 texts, 4 codecs) of dump/load on the real writer and parser, cross-checked with an independent reference writer/parser',
+   text='Every Unicode code point alone and between hex-digit-like neighbours, every string of length <=3 (quick) / <=4 (thorough) over a 15-character hostile alphabet, products of all 8 tags x paths x sizes x checksum sets x corner timestamps, all orders of <=3 entries sorted and unsorted, every text accepted in the C09 enumeration (fixed point), and the entry lists again through plain/gz/bz2/lzma/xz files: load(dump(E)) == E field-wise, one line per entry with single-space separators and no whitespace-like character inside a field, second dump byte-identical, and agreement in both directions with gverif/refmanifest.py.',
+   note='Trusted: gverif/refmanifest.py (independent writer/parser). Lone surrogates through UTF-8 files are DONT_CARE. Lists are drawn from a fixed 14-entry menu, not the full product cubed.',
+   ref='DESIGN.md §3 C08'),
+ 'C09': dict(level='exploration',
+   technique='exhaustive enumeration of a line-grammar product, all token sequences up to a length bound, every escape value, and all single byte mutations, through the real load() vs a three-valued reference parser',
+   text='13.7M (quick) / 111M (thorough) texts: the full field-wise product of valid and invalid tag/path/size/checksum/extra/timestamp forms, every sequence of <=5 / <=6 tokens over a 12-token alphabet split into lines every way, every \\xHH, \\uHHHH and \\UHHHHHHHH value up to 0x110FFF plus sparse 32-bit values in both hex cases and three contexts, and every single byte mutation (16 bytes x delete/duplicate/replace/insert) of five valid Manifests. Accept/reject and the exact entries must agree with the reference parser; no exception type other than ManifestSyntaxError/ManifestUnsignedData may escape for any text, DONT_CARE ones included.',
+   note='Trusted: gverif/refmanifest.py. DONT_CARE (accept/reject only): non-ASCII whitespace in a line, bare CR, unusual integer literals, duplicate checksum names, surrogate escapes, non-normalised paths, non-canonical timestamp spellings. Armor lines are left to C04.',
+   ref='DESIGN.md §3 C09'),
+ 'C12': dict(level='model_checking',
+   technique='bounded-exhaustive exploration: update run twice under a write-audit seam; update run under every scandir permutation product and every permutation of prior Manifest lines (owned os.scandir order and clock)',
+   text='Idempotence: prior state x edit x options x target x interface, the identical update is repeated and must cause no write event and leave every Manifest with the same bytes and mtime. Canonicity (sort on, one Manifest per directory): for 14 prior states x 5 edits x 3 option sets the update is run under the full product of per-directory scandir permutations (directories with <=4/5 names: all permutations) and under every permutation of the lines of each pre-existing Manifest, with a fake advancing clock; every Manifest a run writes must be byte-identical across all runs whose unwritten Manifests are identical.',
+   note='Trusted: os.scandir/time.time monkeypatch seams, sys.addaudithook. Directories or Manifests with more names/lines than the bound use rotations, reversal and adjacent transpositions (noted in evidence). Known finding: equal duplicate entries (see C03).',
+   ref='DESIGN.md §3 C12'),
+ 'C15': dict(level='model_checking',
+   technique='DFS enumeration of all Manifest/IGNORE chains up to depth 4 (6 thorough) x start x flags x device boundary on the real find_top_level_manifest vs reference upward walk',
+   text='Every chain of up to 4 (quick) / 6 (thorough) nested directories where each level independently has no Manifest, a plain or a compressed one (gz everywhere; bz2/lzma/xz, plain+gz pairs, empty Manifests, entries preceding IGNOREs at one level) with every IGNORE option (next component, deeper prefixes, exact start, sibling, shorter and longer string-prefix look-alikes), every start depth and spelling, allow_compressed on/off and a device boundary above any level with allow_xdev on/off: 840k (quick) / 5.2M (thorough) calls compared with a reference model of the upward walk.',
+   note='Trusted: the reference walk in the harness, refmanifest writer. The device boundary is virtual (st_dev shifted by an os proxy installed into gemato.find_top_level; cross-checked once against real tmpfs mounts in a private mount namespace); a Manifest symlinked from another real filesystem covers the fstat check. DONT_CARE: plain+compressed pair in one directory; non-IGNORE entry for the start path before an IGNORE.',
+   ref='DESIGN.md §3 C15'),
+ 'C17': dict(level='exploration',
+   technique='exhaustive enumeration of content lengths in the stated windows x hash names x size hints x read schedules (all compositions for n<=10) on the real hash_file/get_file_metadata/CLI vs one-shot hashlib and coreutils',
+   text='Every length 0..300 and +-2 around 64 KiB, 128 KiB and 1 MiB (thorough: 2 MiB) with a position-dependent pattern x 41 name sets (10 Manifest names, unknown names, every parameterless hashlib name, groups, mixes) x 6 size hints x read schedules delivered by a scripted raw stream (all 2^(n-1) compositions for n<=10; 1/2/3/7/4096/65535/65536/65537-byte steps, halving, one short read at every position around each threshold) through hash_file, hash_path, get_file_metadata and gemato hash: digest == one-shot digest of the algorithm the name denotes (independent table, cross-checked with md5sum/sha1sum/sha256sum/sha512sum/b2sum), size == length, unsupported names -> UnsupportedHash only.',
+   note='Trusted: CPython hashlib one-shot digests, coreutils as second opinion, refmanifest.HASHES table. Quick tier thins schedules at >=1 MiB (stated in evidence rule). Not covered: would-block reads, real pipes, lengths between the windows.',
+   ref='DESIGN.md §3 C17'),
 }
 NOT_YET = {}
 
